@@ -1,4 +1,4 @@
-(* Proofs/C03.v — proofs for C03 (writer). *)
+(* Proofs/C03.v — proofs for C03: the writer state machine (pieces = whole, header once). *)
 From Coq Require Import ZArith List Bool Lia Arith.
 From BNP Require Import Base.Prims Base.PrimsFacts Model.C03.
 Import ListNotations.
@@ -6,3 +6,268 @@ Open Scope Z_scope.
 
 Lemma serialise_app f a b : serialise f (a ++ b) = serialise f a ++ serialise f b.
 Proof. unfold serialise. rewrite map_app, concat_app. reflexivity. Qed.
+Lemma serialise_nil f : serialise f [] = [].
+Proof. reflexivity. Qed.
+Lemma serialise_concat f (cs : list (list row)) :
+  serialise f (concat cs) = concat (map (serialise f) cs).
+Proof.
+  induction cs as [|c cs IH]; [reflexivity|].
+  cbn [concat map]. rewrite serialise_app, IH. reflexivity.
+Qed.
+
+Lemma concat_filter_nonempty {A} (cs : list (list A)) : concat (filter nonempty cs) = concat cs.
+Proof.
+  induction cs as [|c cs IH]; [reflexivity|].
+  destruct c; cbn [filter nonempty concat]; [exact IH|]. rewrite IH. reflexivity.
+Qed.
+
+Section Writer.
+Variable f : fmt.
+Variable header : list Z.
+(* every non-empty table handed to from_data is serialised canonically (discharged per format by the
+   theorems of Proofs/C03_*.v) *)
+Definition canon_chunk (c : list row) : Prop := c <> [] -> from_data f c = (0, serialise f c).
+
+Definition hdr_if (b : bool) : list Z := if b then header else [].
+
+Lemma write_one_ok ab st c :
+  w_err st = 0 -> canon_chunk c ->
+  write_one f header ab st c =
+  {| w_hw := w_hw st || (has_header f && negb ab);
+     w_out := w_out st ++ hdr_if (has_header f && negb ab && negb (w_hw st)) ++ serialise f c;
+     w_err := 0 |}.
+Proof.
+  intros He Hc. unfold write_one. rewrite He. cbn [Z.eqb negb].
+  destruct st as [hw out e]. cbn [w_hw w_out w_err] in *. subst e.
+  destruct c as [|r c].
+  - rewrite serialise_nil.
+    destruct (has_header f && negb ab), hw; cbn [andb negb orb hdr_if w_hw w_out w_err];
+      rewrite ?app_nil_r; reflexivity.
+  - rewrite (Hc ltac:(discriminate)).
+    destruct (has_header f && negb ab), hw; cbn [andb negb orb hdr_if w_hw w_out w_err];
+      rewrite ?app_nil_l, ?app_assoc; reflexivity.
+Qed.
+
+Lemma write_chunks_ok ab cs : forall st,
+  w_err st = 0 -> Forall canon_chunk cs ->
+  fold_left (write_one f header ab) cs st =
+  {| w_hw := w_hw st || (has_header f && negb ab && nonempty cs);
+     w_out := w_out st ++ hdr_if (has_header f && negb ab && negb (w_hw st) && nonempty cs)
+                    ++ serialise f (concat cs);
+     w_err := 0 |}.
+Proof.
+  induction cs as [|c cs IH]; intros st He Hc.
+  - cbn. rewrite !andb_false_r, orb_false_r. cbn. rewrite !app_nil_r. destruct st; cbn in *; subst; reflexivity.
+  - inversion Hc as [|? ? Hc1 Hc2]; subst. cbn [fold_left].
+    rewrite (write_one_ok ab st c He Hc1). rewrite IH; [|reflexivity|exact Hc2].
+    cbn [w_hw w_out w_err nonempty concat]. rewrite serialise_app, !andb_true_r.
+    f_equal.
+    + destruct (w_hw st), (has_header f && negb ab), (nonempty cs); reflexivity.
+    + rewrite <- !app_assoc. f_equal.
+      destruct (w_hw st), (has_header f && negb ab), (nonempty cs); cbn; rewrite ?app_nil_r; reflexivity.
+Qed.
+
+Lemma write_calls_ok skip ab calls : forall st,
+  w_err st = 0 -> Forall (fun c => Forall canon_chunk (c_chunks c)) calls ->
+  fold_left (write_call skip f header ab) calls st =
+  fold_left (write_one f header ab) (flat_map (chunks_seen skip) calls) st.
+Proof.
+  induction calls as [|c calls IH]; intros st He Hc; [reflexivity|].
+  cbn [fold_left flat_map]. rewrite fold_left_app. unfold write_call at 2.
+  inversion Hc as [|? ? Hc1 Hc2]; subst.
+  assert (Hseen : Forall canon_chunk (chunks_seen skip c)).
+  { unfold chunks_seen. destruct (c_stream c && skip); [|exact Hc1].
+    rewrite Forall_forall in *. intros x Hx. apply filter_In in Hx. apply Hc1, Hx. }
+  rewrite (write_chunks_ok ab _ st He Hseen).
+  apply IH; [reflexivity|exact Hc2].
+Qed.
+
+Lemma Forall_seen skip calls :
+  Forall (fun c => Forall canon_chunk (c_chunks c)) calls ->
+  Forall canon_chunk (flat_map (chunks_seen skip) calls).
+Proof.
+  intros H. rewrite Forall_forall in *. intros x Hx. apply in_flat_map in Hx.
+  destruct Hx as [c [Hc Hx]]. specialize (H c Hc). rewrite Forall_forall in H. apply H.
+  unfold chunks_seen in Hx. destruct (c_stream c && skip); [|exact Hx]. apply filter_In in Hx. apply Hx.
+Qed.
+
+Lemma concat_seen skip calls :
+  concat (flat_map (chunks_seen skip) calls) = concat (map rows_of_call calls).
+Proof.
+  induction calls as [|c calls IH]; [reflexivity|].
+  cbn [flat_map map concat]. rewrite concat_app, IH. f_equal.
+  unfold chunks_seen, rows_of_call. destruct (c_stream c && skip); [apply concat_filter_nonempty|reflexivity].
+Qed.
+
+(* one session, started on [content] *)
+Lemma run_session_ok is_ab skip gz content s :
+  Forall (fun c => Forall canon_chunk (c_chunks c)) (s_calls s) ->
+  run_session is_ab skip f header gz (0, content) s =
+  (0, (if s_append s then content else [])
+      ++ hdr_if (has_header f && negb (is_ab (s_append s) gz) && nonempty (flat_map (chunks_seen skip) (s_calls s)))
+      ++ serialise f (rows_of_session s)).
+Proof.
+  intros Hc. unfold run_session. cbn [Z.eqb negb].
+  rewrite write_calls_ok; [|reflexivity|exact Hc].
+  rewrite write_chunks_ok; [|reflexivity|apply Forall_seen, Hc].
+  cbn [w_err w_out w_hw negb]. rewrite andb_true_r, concat_seen. reflexivity.
+Qed.
+End Writer.
+
+(* ---------- whole histories ---------- *)
+Definition canon_hist (f : fmt) (h : list session) : Prop :=
+  Forall (fun s => Forall (fun c => Forall (canon_chunk f) (c_chunks c)) (s_calls s)) h.
+(* only the first session may create the file *)
+Definition tail_appends (h : list session) : Prop :=
+  match h with [] => True | _ :: t => Forall (fun s => s_append s = true) t end.
+
+Lemma rows_of_hist_cons s h : rows_of_hist (s :: h) = rows_of_session s ++ rows_of_hist h.
+Proof. reflexivity. Qed.
+
+Lemma hdr_if_false header : hdr_if header false = [].
+Proof. reflexivity. Qed.
+
+Section Hist.
+Variable is_ab : bool -> bool -> bool.
+Variable skip : bool.
+Variable f : fmt.
+Variable header : list Z.
+Variable gz : bool.
+Hypothesis Happ : header = [] \/ has_header f = false \/ is_ab true gz = true.
+
+Lemma hdr_append b : hdr_if header (has_header f && negb (is_ab true gz) && b) = [].
+Proof.
+  destruct Happ as [H|[H|H]]; rewrite H.
+  - destruct (_ && _); reflexivity.
+  - reflexivity.
+  - cbn. rewrite andb_false_r. reflexivity.
+Qed.
+
+Lemma run_appends t : forall content,
+  canon_hist f t -> Forall (fun s => s_append s = true) t ->
+  fold_left (run_session is_ab skip f header gz) t (0, content) = (0, content ++ serialise f (rows_of_hist t)).
+Proof.
+  induction t as [|s t IH]; intros content Hc Ha.
+  - cbn. rewrite app_nil_r. reflexivity.
+  - inversion Hc as [|? ? Hc1 Hc2]; subst. inversion Ha as [|? ? Ha1 Ha2]; subst.
+    cbn [fold_left]. rewrite (run_session_ok f header is_ab skip gz content s Hc1).
+    rewrite Ha1, hdr_append, app_nil_l.
+    rewrite (IH _ Hc2 Ha2). rewrite rows_of_hist_cons, serialise_app, app_assoc. reflexivity.
+Qed.
+
+Theorem write_hist_generic h :
+  canon_hist f h -> tail_appends h ->
+  (header = [] \/ has_header f = true) ->
+  is_ab false gz = false ->
+  match h with
+  | s :: _ => s_append s = true \/
+              nonempty (flat_map (chunks_seen skip) (s_calls s)) = existsb (fun c => nonempty (c_chunks c)) (s_calls s)
+  | [] => True
+  end ->
+  run_hist_with is_ab skip f header gz h = (0, spec_file f header h).
+Proof.
+  intros Hc Ht Hh Hw Hfirst. unfold run_hist_with, spec_file.
+  destruct h as [|s t]; [reflexivity|].
+  inversion Hc as [|? ? Hc1 Hc2]; subst. cbn in Ht.
+  cbn [fold_left]. rewrite (run_session_ok f header is_ab skip gz [] s Hc1).
+  rewrite (run_appends t _ Hc2 Ht).
+  rewrite rows_of_hist_cons, serialise_app. cbn [spec_header].
+  destruct (s_append s) eqn:Ea.
+  - rewrite hdr_append. cbn. reflexivity.
+  - rewrite Hw. cbn [negb andb]. rewrite andb_true_r.
+    destruct Hfirst as [Hf|Hf]; [discriminate|]. rewrite Hf.
+    change (fun c : call => match c_chunks c with [] => false | _ :: _ => true end)
+      with (fun c : call => nonempty (c_chunks c)).
+    destruct (existsb (fun c => nonempty (c_chunks c)) (s_calls s)).
+    + destruct Hh as [Hh|Hh]; rewrite Hh.
+      * destruct (has_header f && true); cbn; rewrite <- ?app_assoc; reflexivity.
+      * cbn. rewrite <- ?app_assoc. reflexivity.
+    + rewrite andb_false_r. cbn. rewrite <- ?app_assoc. reflexivity.
+Qed.
+End Hist.
+
+Lemma seen_noskip calls :
+  nonempty (flat_map (chunks_seen false) calls) = existsb (fun c => nonempty (c_chunks c)) calls.
+Proof.
+  induction calls as [|c calls IH]; [reflexivity|].
+  cbn [flat_map existsb]. unfold chunks_seen at 1. rewrite andb_false_r.
+  destruct (c_chunks c) as [|x xs]; [exact IH|reflexivity].
+Qed.
+
+(* the repaired writer: every history, plain or gzip *)
+Theorem write_pieces_fixed f header gz h :
+  canon_hist f h -> tail_appends h -> (header = [] \/ has_header f = true) ->
+  run_hist_fixed f header gz h = (0, spec_file f header h).
+Proof.
+  intros Hc Ht Hh. apply write_hist_generic; try assumption.
+  - right; right; reflexivity.
+  - reflexivity.
+  - destruct h as [|s t]; [exact I|]. right. apply seen_noskip.
+Qed.
+
+(* the writer as it is: the same, except for gzip targets that are appended to and for streams that
+   consist of empty chunks only *)
+Definition first_session_sees (s : session) : Prop :=
+  s_append s = true
+  \/ (forall c, In c (s_calls s) -> c_chunks c = [])
+  \/ (exists c, In c (s_calls s) /\
+        ((c_stream c = false /\ c_chunks c <> []) \/ (exists ch, In ch (c_chunks c) /\ ch <> []))).
+
+Lemma nonempty_true_iff {A} (l : list A) : nonempty l = true <-> l <> [].
+Proof. destruct l; cbn; split; congruence. Qed.
+
+Lemma seen_skip_guard calls :
+  (forall c, In c calls -> c_chunks c = [])
+  \/ (exists c, In c calls /\
+        ((c_stream c = false /\ c_chunks c <> []) \/ (exists ch, In ch (c_chunks c) /\ ch <> []))) ->
+  nonempty (flat_map (chunks_seen true) calls) = existsb (fun c => nonempty (c_chunks c)) calls.
+Proof.
+  intros [Hall|[c [Hin Hc]]].
+  - assert (E1 : flat_map (chunks_seen true) calls = []).
+    { induction calls as [|c calls IH]; [reflexivity|]. cbn [flat_map].
+      rewrite IH by (intros; apply Hall; right; assumption).
+      unfold chunks_seen. rewrite (Hall c (or_introl eq_refl)). destruct (c_stream c && true); reflexivity. }
+    rewrite E1. cbn. symmetry. apply not_true_is_false. intros E. apply existsb_exists in E.
+    destruct E as [c [Hc Hn]]. rewrite (Hall c Hc) in Hn. discriminate.
+  - assert (E1 : nonempty (flat_map (chunks_seen true) calls) = true).
+    { apply nonempty_true_iff. intros E.
+      assert (Hsub : forall x, In x (chunks_seen true c) -> False).
+      { intros x Hx. assert (In x (flat_map (chunks_seen true) calls)) by (apply in_flat_map; eauto).
+        rewrite E in H. exact H. }
+      unfold chunks_seen in Hsub. destruct Hc as [[Hs Hne]|[ch [Hch Hne]]].
+      - rewrite Hs in Hsub. cbn in Hsub. destruct (c_chunks c) as [|x xs]; [congruence|]. apply (Hsub x). left; reflexivity.
+      - destruct (c_stream c && true).
+        + apply (Hsub ch). apply filter_In. split; [exact Hch|]. apply nonempty_true_iff, Hne.
+        + apply (Hsub ch), Hch. }
+    rewrite E1. symmetry. apply existsb_exists. exists c. split; [exact Hin|].
+    apply nonempty_true_iff. destruct Hc as [[_ Hne]|[ch [Hch _]]]; [exact Hne|]. intros E; rewrite E in Hch; exact Hch.
+Qed.
+
+Theorem write_pieces_partial f header gz h :
+  canon_hist f h -> tail_appends h -> (header = [] \/ has_header f = true) ->
+  (gz = false \/ header = []) ->
+  match h with s :: _ => first_session_sees s | [] => True end ->
+  run_hist_pinned f header gz h = (0, spec_file f header h).
+Proof.
+  intros Hc Ht Hh Hgz Hfirst. apply write_hist_generic; try assumption.
+  - destruct Hgz as [Hg|Hg]; [right; right; rewrite Hg; reflexivity|left; exact Hg].
+  - reflexivity.
+  - destruct h as [|s t]; [exact I|]. destruct Hfirst as [Ha|Hs]; [left; exact Ha|right].
+    apply seen_skip_guard, Hs.
+Qed.
+
+(* the same for whichever writer the switch [run_hist] selects *)
+Theorem write_pieces_current f header gz h :
+  canon_hist f h -> tail_appends h -> (header = [] \/ has_header f = true) ->
+  (gz = false \/ header = []) ->
+  match h with s :: _ => first_session_sees s | [] => True end ->
+  run_hist f header gz h = (0, spec_file f header h).
+Proof.
+  intros Hc Ht Hh Hgz Hfirst. unfold run_hist.
+  first [ unfold run_hist_pinned | unfold run_hist_fixed | idtac ].
+  apply write_hist_generic; try assumption.
+  - destruct Hgz as [Hg|Hg]; [right; right; first [reflexivity | rewrite Hg; reflexivity]|left; exact Hg].
+  - reflexivity.
+  - destruct h as [|s t]; [exact I|]. destruct Hfirst as [Ha|Hs]; [left; exact Ha|right].
+    first [ apply seen_skip_guard, Hs | apply seen_noskip ].
+Qed.
